@@ -146,16 +146,23 @@ func (e *Encoder) writeObject(data interface{}) (int, error) {
 		e.nameMap[clsName] = clsName
 	}
 	length, ok := e.existClassDef(clsName)
+	var err error
 	if !ok {
-		length, _ = e.writeClsDef(typ, clsName)
+		if length, err = e.writeClsDef(typ, clsName); err != nil {
+			return 0, err
+		}
 	}
 	if byte(length) <= _objectTagMaxLen {
 		// NOTE: when length=2, length+_objectLenTagMin='b', the same as the binary chunk start with,
 		// which will be special processed in decoder
-		e.writeBT(byte(length) + _objectLenTagMin)
+		_, err = e.writeBT(byte(length) + _objectLenTagMin)
 	} else {
-		e.writeBT(_objectTag)
-		e.writeInt(int32(length))
+		if _, err = e.writeBT(_objectTag); err == nil {
+			_, err = e.writeInt(int32(length))
+		}
+	}
+	if err != nil {
+		return 0, err
 	}
 	for i := 0; i < vv.NumField(); i++ {
 		_, err := e.WriteData(vv.Field(i).Interface())
@@ -167,14 +174,22 @@ func (e *Encoder) writeObject(data interface{}) (int, error) {
 }
 
 func (e *Encoder) writeClsDef(typ reflect.Type, clsName string) (int, error) {
-	e.writeBT(_objectDefTag)
-	e.writeString(clsName)
+	if _, err := e.writeBT(_objectDefTag); err != nil {
+		return 0, err
+	}
+	if _, err := e.writeString(clsName); err != nil {
+		return 0, err
+	}
 	fldList := make([]string, typ.NumField())
-	e.writeInt(int32(len(fldList)))
+	if _, err := e.writeInt(int32(len(fldList))); err != nil {
+		return 0, err
+	}
 	for i := 0; i < len(fldList); i++ {
 		str, _ := lowerName(typ.Field(i).Name)
 		fldList[i] = str
-		e.writeString(fldList[i])
+		if _, err := e.writeString(fldList[i]); err != nil {
+			return 0, err
+		}
 	}
 	clsDef := ClassDef{clsName, fldList}
 	length := len(e.clsDefList)
